@@ -521,7 +521,7 @@ func (u *Unit) maybeStruct(t types.Type) *StructInfo {
 		return nil
 	}
 	if n.Obj().Pkg() != nil && (isOpaquePkg(n.Obj().Pkg().Path()) || n.Obj().Pkg().Path() == "reflect") {
-		if !(n.Obj().Pkg().Path() == "net/http" && n.Obj().Name() == "Client") {
+		if !isModelledLibStruct(n.Obj().Pkg().Path(), n.Obj().Name()) {
 			return nil
 		}
 	}
@@ -647,6 +647,24 @@ func (u *Unit) assignField(l *ast.SelectorExpr, sel *types.Selection, v Value, e
 		cv := u.convert(v, f.Ty, env)
 		u.setHeap(env, name, u.define(env, "h_"+name, Store(h, cur.Term, cv.Term)))
 		return
+	}
+	// field of a struct value embedded (by value) in a struct reached through a pointer: p.Embedded.f = v
+	if len(path) == 2 {
+		if bp, ok := types.Unalias(base.Ty).Underlying().(*types.Pointer); ok {
+			if osi := u.maybeStruct(bp.Elem()); osi != nil {
+				if isi := u.maybeStruct(t); isi != nil {
+					ef := osi.Fields[path[0]]
+					u.safety(env, "nil", l.Pos(), u.exprText(l), Not(Same(base.Term, Term{"nil_Ref", SRef})))
+					u.frameCheckField(env, base.Term, osi, ef.Name, l)
+					name := fieldHeapName(osi, ef.Name)
+					h := u.heap(env, name, ArrS(SRef, ef.Sort))
+					cv := u.convert(v, isi.Fields[last].Ty, env)
+					nv := u.setField(isi, Select(h, base.Term), last, cv.Term)
+					u.setHeap(env, name, u.define(env, "h_"+name, Store(h, base.Term, nv)))
+					return
+				}
+			}
+		}
 	}
 	// field of a local struct variable
 	if len(path) == 1 {
